@@ -1,7 +1,164 @@
-//! C14: not implemented yet.
+//! C14: WHERE filtering and select-list truth values follow SQL three-valued logic.
+use crate::report::Ctx;
+use crate::rng::{fnv, Rng};
+use crate::sqlm::cmp::compare;
+use crate::sqlm::db::{is_panic, panic_tag, Db, Scratch};
+use crate::sqlm::expr::{shrink_expr, E};
+use crate::sqlm::gen::{gen_pred, gen_spec, scope_of, ExprOpts, TableSpec};
+use crate::sqlm::query::{FromItem, Item, MTable, Query, Select};
+use crate::sqlm::query::run_model;
+use crate::sqlm::val::{rows_json, Row, V};
 use crate::Args;
+use serde_json::json;
+use std::collections::{BTreeMap, BTreeSet};
 
-pub fn run(_a: &Args) -> i32 {
-    println!("INCONCLUSIVE property=C14 reason=check not implemented yet");
-    2
+fn where_query(t: &str, p: &E) -> Query {
+    Query::Select(Select { items: vec![Item::Star], from: vec![FromItem::Table { name: t.into(), alias: None }], where_: Some(p.clone()), ..Default::default() })
+}
+fn value_query(t: &str, p: &E) -> Query {
+    // id + the predicate's value, so rows are identifiable
+    Query::Select(Select { items: vec![Item::Expr { e: crate::sqlm::expr::col("id"), alias: None }, Item::Expr { e: p.clone(), alias: Some("v".into()) }], from: vec![FromItem::Table { name: t.into(), alias: None }], ..Default::default() })
+}
+
+/// normalise a select-list truth value: TRUE/FALSE/NULL (TurDB may answer Bool or Int 0/1)
+fn norm_truth(rows: &[Row]) -> Vec<Row> {
+    rows.iter()
+        .map(|r| {
+            let mut r = r.clone();
+            if let Some(v) = r.get_mut(1) {
+                *v = match v.truth() {
+                    None => V::Null,
+                    Some(b) => V::Bool(b),
+                };
+            }
+            r
+        })
+        .collect()
+}
+
+/// stable class of an error message: its first words, letters only
+pub fn err_class(e: &str) -> String {
+    e.split(|c: char| !c.is_ascii_alphabetic()).filter(|w| !w.is_empty()).take(7).collect::<Vec<_>>().join("_").to_lowercase()
+}
+
+/// Err(sig-cause, detail) if TurDB disagrees with the model for this query kind
+fn check_one(db: &mut Db, tables: &BTreeMap<String, MTable>, q: &Query, truth_col: bool) -> Result<bool, (String, serde_json::Value)> {
+    let m = match run_model(q, tables) {
+        Ok(m) => m,
+        Err(crate::sqlm::expr::MErr::Unsupported(_)) => return Ok(false),
+        Err(crate::sqlm::expr::MErr::Error(_)) => {
+            // model says error: any TurDB error is fine, a result is not judged here (C20/C22 territory)
+            return Ok(false);
+        }
+    };
+    match db.query(&q.sql()) {
+        Ok(rows) => {
+            let (rows, m) = if truth_col {
+                let mut m2 = m.clone();
+                m2.rows = norm_truth(&m.rows);
+                (norm_truth(&rows), m2)
+            } else {
+                (rows, m)
+            };
+            let fails = compare(&rows, &m);
+            if let Some(f) = fails.first() {
+                return Err((f.assertion.to_string(), json!({"sql": q.sql(), "fail": f.detail, "got": rows_json(&rows, 8), "want": rows_json(&m.rows, 8)})));
+            }
+            Ok(true)
+        }
+        Err(e) if is_panic(&e) => Err((format!("panic/{}", panic_tag(&e)), json!({"sql": q.sql(), "panic": e}))),
+        Err(e) => Err((format!("unexpected_error:{}", err_class(&e)), json!({"sql": q.sql(), "error": e}))),
+    }
+}
+
+pub fn run(a: &Args) -> i32 {
+    let mut ctx = Ctx::new(
+        "C14",
+        &a.tier,
+        a.seed,
+        "exploration",
+        "generated tables (id PK + 2..5 typed columns with NULL strata 0/15/50%, 8..30 rows, small value domains) and random boolean expression trees (depth <= 4: comparisons incl. int-vs-float, AND/OR/NOT, [NOT] IN lists with/without NULL, [NOT] BETWEEN, [NOT] LIKE, IS [NOT] NULL, arithmetic); each predicate is run as `SELECT * .. WHERE p` (bag vs model rows where p is TRUE) and as `SELECT id, p` (TRUE/FALSE/NULL per row). A mismatch is shrunk to a minimal failing expression whose feature set is the signature. distinct_nontrivial = distinct predicates (by SQL text) for which the model yields at least two different truth values over the table's rows",
+    );
+    let mut rng = Rng::derive(a.seed, 14);
+    let quick = ctx.quick();
+    let ndb = if quick { 60 } else { 1500 };
+    let per_db = 25;
+    let scratch = Scratch::new("c14");
+    let mut feature_counts: BTreeMap<String, u64> = BTreeMap::new();
+    let mut shrunk_seen: BTreeSet<String> = BTreeSet::new();
+    for dbi in 0..ndb {
+        let ncols = rng.usize(2, 5);
+        let spec: TableSpec = gen_spec(&mut rng, "t", ncols, true);
+        let nrows = rng.usize(8, 30);
+        let rows = spec.gen_rows(&mut rng, nrows);
+        let mut tables = BTreeMap::new();
+        tables.insert("t".to_string(), spec.to_mtable(rows.clone()));
+        let mut db = match Db::create(&scratch.dir(&format!("db{}", dbi))) {
+            Ok(d) => d,
+            Err(e) => {
+                ctx.inconclusive(&format!("cannot create database: {}", e));
+                break;
+            }
+        };
+        let mut setup_ok = db.exec(&spec.create_sql()).is_ok();
+        for s in spec.insert_sql(&rows) {
+            setup_ok &= db.exec(&s).is_ok();
+        }
+        if !setup_ok {
+            ctx.violation("setup", "C14/setup_failed", json!({"log": db.log}));
+            continue;
+        }
+        let scope = scope_of(&spec, None);
+        for _ in 0..per_db {
+            let opts = ExprOpts::all();
+            let depth = rng.below(5) as u32;
+            let p = gen_pred(&mut rng, &scope, depth, &opts);
+            for truth_col in [false, true] {
+                let mk = |p: &E| if truth_col { value_query("t", p) } else { where_query("t", p) };
+                let q = mk(&p);
+                ctx.eval();
+                match check_one(&mut db, &tables, &q, truth_col) {
+                    Ok(judged) => {
+                        if judged {
+                            let mut f = BTreeSet::new();
+                            p.features(&mut f);
+                            for x in f {
+                                *feature_counts.entry(x).or_insert(0) += 1;
+                            }
+                            // non-trivial: predicate distinguishes rows
+                            if let Ok(m) = run_model(&value_query("t", &p), &tables) {
+                                let kinds: BTreeSet<String> = m.rows.iter().map(|r| format!("{:?}", r[1].truth())).collect();
+                                if kinds.len() >= 2 {
+                                    ctx.nontrivial(fnv(p.sql().as_bytes()));
+                                }
+                            }
+                            if ctx.samples.len() < 4 && depth >= 2 {
+                                ctx.sample(json!({"sql": q.sql()}));
+                            }
+                        } else {
+                            ctx.count("dropped_model_undecided", 1);
+                        }
+                    }
+                    Err((assertion, detail)) => {
+                        // shrink to a minimal failing predicate (same failing assertion)
+                        let a0 = assertion.clone();
+                        let mut fails = |c: &E| matches!(check_one(&mut db, &tables, &mk(c), truth_col), Err((a, _)) if a == a0);
+                        let small = shrink_expr(&p, &mut fails, 200);
+                        let mut f = BTreeSet::new();
+                        small.features(&mut f);
+                        // data fact: does the minimal predicate evaluate to NULL for some row?
+                        let null_involved = run_model(&value_query("t", &small), &tables).map(|m| m.rows.iter().any(|r| r[1].is_null())).unwrap_or(false);
+                        let kind = if truth_col { "select_value" } else { "where_rows" };
+                        let sig = format!("C14/{}/{}/{}{}", kind, assertion, f.into_iter().collect::<Vec<_>>().join("+"), if null_involved { "/null_result" } else { "" });
+                        let small_detail = check_one(&mut db, &tables, &mk(&small), truth_col).err().map(|x| x.1);
+                        let first = shrunk_seen.insert(sig.clone());
+                        ctx.violation(kind, &sig, json!({"original": detail, "minimal_predicate": small.sql(), "minimal_detail": small_detail, "create": spec.create_sql(), "inserts": spec.insert_sql(&rows), "first_of_sig": first}));
+                    }
+                }
+            }
+        }
+    }
+    ctx.extra.insert("judged_predicates_by_feature".into(), json!(feature_counts));
+    ctx.assumptions.push("text comparison is bytewise; LIKE is case-sensitive over ASCII; no implicit text<->number comparisons are generated; integer magnitudes stay far from overflow".into());
+    ctx.finish()
 }
